@@ -178,6 +178,9 @@ def main():
     if not replay and cfg.get("race", {}).get(tier):
         race_info = run_race(prop, cfg, tier, seed)
 
+    if race_info:
+        results = results + race_info.get("results", [])
+        problems = problems + race_info.get("problems", [])
     known = load_known()
     evaluations = sum(r.get("evaluations", 0) for r in results)
     classes, counters, maxima, maxima_at, samples, notes = {}, {}, {}, {}, [], []
@@ -210,7 +213,14 @@ def main():
                 viols.append(v)
     if race_info:
         for v in race_info.get("violations", []):
-            viols.append(v)
+            k = match_known(known, prop, v.get("sig", {}))
+            if k is not None:
+                known_hits.setdefault(k["what"], 0)
+                known_hits[k["what"]] += 1
+            else:
+                viols.append(v)
+        if race_info.get("inconclusive"):
+            inconcl.append(race_info["inconclusive"])
         counters.update(race_info.get("counters", {}))
         notes.extend(race_info.get("notes", []))
     # crashed shard = the monitored code killed the process (fatal error, os.Exit) or the
